@@ -228,7 +228,7 @@ def run(n, seed):
                 # kill_at_op needs the in-process hook; the outside devices cannot place it
                 if op.get("faults"):
                     for f in op["faults"]:
-                        if f["kind"] == "kill_at_op":
+                        if f["kind"] in ("kill_at_op", "fail_output_lost"):
                             f["kind"] = "fail_before"
         cases.append(c)
     # variable-font histories: UFO *directories* are ninja outputs; the outside fault devices cannot tear a
